@@ -62,6 +62,7 @@ var commonAssumptions = []string{
 func init() {
 	reg("C12", "exploration", false, 160000, 25, 6000000, 240, 3)
 	reg("C09", "exploration", true, 40000, 40, 1500000, 300, 3)
+	reg("C11", "exploration", false, 100000, 30, 3000000, 240, 3)
 	reg("C04", "exploration", false, 100000, 30, 4000000, 240, 3)
 }
 
